@@ -359,7 +359,25 @@ fn stored_roundtrip(conn: &rusqlite::Connection, real: &Real) -> Result<(), Stri
             if !n.eq(&back) || back._signature != n._signature {
                 return Err("read_back_differs".into());
             }
-            back.verify().map_err(|_| "read_back_does_not_verify".to_string())
+            back.verify().map_err(|_| "read_back_does_not_verify".to_string())?;
+            // the same row written OVER a stored version of another author (the update branch of the write
+            // routine): what is stored afterwards is this version, key and signature included
+            let mut prev = n.clone();
+            prev._local_id = None;
+            prev.verifying_key = vec![7u8; n.verifying_key.len().max(1)];
+            prev._signature = vec![9u8; 64];
+            prev.mdate = n.mdate.wrapping_sub(1);
+            prev.write(conn, false, &None, &None).map_err(e)?;
+            let stored = Node::get_with_entity(&n.id, &n._entity, conn).map_err(e)?.ok_or("not_found_after_write")?;
+            let mut w = n.clone();
+            w._local_id = stored._local_id;
+            w.write(conn, false, &None, &None).map_err(e)?;
+            let back = Node::get_with_entity(&n.id, &n._entity, conn).map_err(e)?.ok_or("not_found_after_update")?;
+            conn.execute("DELETE FROM _node", []).map_err(e)?;
+            if !n.eq(&back) || back._signature != n._signature || back.verifying_key != n.verifying_key {
+                return Err("read_back_differs_after_update_over_another_author".into());
+            }
+            back.verify().map_err(|_| "read_back_does_not_verify_after_update_over_another_author".to_string())
         }
         Real::E(ed) => {
             ed.write(conn).map_err(e)?;
